@@ -26,13 +26,13 @@ def defaultNone (var : XmlVar) : Bool :=
   | .dictFactory => !var.tokens
   | _ => false
 
-/-- a typed field: one primitive type (str / int / bool) or one model class, single or a list,
-possibly under a wrapper element -/
+/-- a typed field: one primitive type (str / int / bool / QName) or one model class, single or a
+list, possibly under a wrapper element -/
 def varTyped (var : XmlVar) : Bool :=
   !var.isAttributes && !var.isWildcard && !var.isElements && !var.anyType && !var.isClazzUnion
   && var.elements.isEmpty && !var.tokens
   && (match var.clazz, var.types with
-      | none, [.prim t] => t != .qname
+      | none, [.prim _] => true
       | some k, [.cls k'] => k == k'
       | _, _ => false)
   && (match wrapperName var.toVarCore with
@@ -122,10 +122,17 @@ def poolOKj (Γ : Ctx) (fac : Factory) (k : ClassId) (x : Val) : Bool :=
     else (subs ++ [k]).filter (localNamesMatch Γ (encKeys Γ fac x)) == [k']
   | _ => false
 
-def itemOKj (ok : ClassId → Val → Bool) (Γ : Ctx) (fac : Factory) (var : XmlVar) (x : Val) : Bool :=
+/-- a `QName` is written as its text; it is read back by `QNameConverter.deserialize` without
+prefix map, which accepts the Clark form of a valid URI / NCName pair (or a bare NCName) -/
+def qnameBack (e : BEnv) (p : PVal) : Bool :=
+  match p with
+  | .qname t => deOne e t (.prim .qname) [] == some (.qname t)
+  | _ => true
+
+def itemOKj (e : BEnv) (ok : ClassId → Val → Bool) (Γ : Ctx) (fac : Factory) (var : XmlVar) (x : Val) : Bool :=
   match x with
   | .none => defaultNone var
-  | .prim p => var.types == [.prim (pvalType p)]
+  | .prim p => var.types == [.prim (pvalType p)] && qnameBack e p
   | .obj k' _ =>
     (match var.clazz with
      | some k => ok k' x && poolOKj Γ fac k x
@@ -146,15 +153,15 @@ def wildItemOKj (ok : ClassId → Val → Bool) (x : Val) : Bool :=
   | _ => false
 
 /-- the value of a typed field -/
-def typedValueOKj (ok : ClassId → Val → Bool) (Γ : Ctx) (fac : Factory) (var : XmlVar) (x : Val) : Bool :=
+def typedValueOKj (e : BEnv) (ok : ClassId → Val → Bool) (Γ : Ctx) (fac : Factory) (var : XmlVar) (x : Val) : Bool :=
   if var.listElement then
     (match x with
-     | .list items => items.all (itemOKj ok Γ fac var)
+     | .list items => items.all (itemOKj e ok Γ fac var)
      | _ => false)
   else
     (match x with
      | .list _ => false
-     | _ => itemOKj ok Γ fac var x)
+     | _ => itemOKj e ok Γ fac var x)
 
 /-- the value of a wildcard field -/
 def wildValueOKj (ok : ClassId → Val → Bool) (var : XmlVar) (x : Val) : Bool :=
@@ -184,7 +191,7 @@ def valueOKj (e : BEnv) (ok : ClassId → Val → Bool) (Γ : Ctx) (fac : Factor
   if var.isAttributes then attrsValueOKj x
   else if var.isWildcard then wildValueOKj ok var x
   else if var.tokens then tokensValueOKj e var x
-  else typedValueOKj ok Γ fac var x
+  else typedValueOKj e ok Γ fac var x
 
 def fixedOK (e : BEnv) (var : XmlVar) (x : Val) : Bool :=
   match validateFixed e.py var.toVarCore x with
@@ -239,31 +246,31 @@ def memPool (Γ : Ctx) (k : ClassId) (x : Val) : Bool :=
   | .obj k' _ => (Γ.find k).isSome && (subclassesOf Γ k ++ [k]).contains k'
   | _ => false
 
-def itemOKu (ok : ClassId → Val → Bool) (Γ : Ctx) (var : XmlVar) (x : Val) : Bool :=
+def itemOKu (e : BEnv) (ok : ClassId → Val → Bool) (Γ : Ctx) (var : XmlVar) (x : Val) : Bool :=
   match x with
   | .none => defaultNone var
-  | .prim p => var.types == [.prim (pvalType p)]
+  | .prim p => var.types == [.prim (pvalType p)] && qnameBack e p
   | .obj k' _ =>
     (match var.clazz with
      | some k => ok k' x && memPool Γ k x
      | none => false)
   | _ => false
 
-def typedValueOKu (ok : ClassId → Val → Bool) (Γ : Ctx) (var : XmlVar) (x : Val) : Bool :=
+def typedValueOKu (e : BEnv) (ok : ClassId → Val → Bool) (Γ : Ctx) (var : XmlVar) (x : Val) : Bool :=
   if var.listElement then
     (match x with
-     | .list items => items.all (itemOKu ok Γ var)
+     | .list items => items.all (itemOKu e ok Γ var)
      | _ => false)
   else
     (match x with
      | .list _ => false
-     | _ => itemOKu ok Γ var x)
+     | _ => itemOKu e ok Γ var x)
 
 def valueOKu (e : BEnv) (ok : ClassId → Val → Bool) (Γ : Ctx) (var : XmlVar) (x : Val) : Bool :=
   if var.isAttributes then attrsValueOKj x
   else if var.isWildcard then wildValueOKj ok var x
   else if var.tokens then tokensValueOKj e var x
-  else typedValueOKu ok Γ var x
+  else typedValueOKu e ok Γ var x
 
 /-- `valOKj` without its per-instance ambiguity condition: only typing -/
 def valOKu (e : BEnv) (Γ : Ctx) (fac : Factory) : Nat → ClassId → Val → Bool
